@@ -55,6 +55,7 @@ class CSym(object):
         self.symloops = symbolic_loops or {}
         self.max_paths = max_paths
         self.inputs = inputs or {}
+        self.boolvals = {}
         self.dims = {}
         for d, v in func.locals.items():
             dm = dims_of(v.ty)
@@ -251,6 +252,9 @@ class CSym(object):
         v = self.ev(e, st)
         if v.is_const():
             return v.const_value() != 0
+        for at, c in self.boolvals.items():
+            if vn.equal(v, vn.atom(at)):
+                return c
         return ("!=", v, vn.const(0))
 
     # ------------------------------------------------------------------ expressions
@@ -352,7 +356,10 @@ class CSym(object):
                 c = self.cond(e, st)
                 if isinstance(c, bool):
                     return vn.const(1 if c else 0)
-                raise Unsupported("symbolic comparison used as a value: %s" % estr(e))
+                # a symbolic truth value stored in a variable: keep it as an opaque atom that cond() maps back
+                at = ("boolval", repr(ckey(c)))
+                self.boolvals[at] = c
+                return vn.atom(at)
             a, b = self.ev(e.a[0], st), self.ev(e.a[1], st)
             if e.op == "+":
                 return a + b
